@@ -190,9 +190,19 @@ func (r *Run) Finish() int {
 	if r.Assumptions == nil {
 		evd["assumptions"] = []string{}
 	}
-	b, _ := json.MarshalIndent(evd, "", " ")
 	dir := filepath.Join(Root(), "evidence")
 	os.MkdirAll(dir, 0o755)
+	// a property decided by two binaries (e.g. a sequential exploration and a schedule exploration): the second
+	// run merges into the evidence the first one has just written (VERIF_EVIDENCE_MERGE=<prefix for its coverage keys>)
+	if prefix := os.Getenv("VERIF_EVIDENCE_MERGE"); prefix != "" {
+		if old, err := os.ReadFile(filepath.Join(dir, r.Property+".json")); err == nil {
+			var prev map[string]interface{}
+			if json.Unmarshal(old, &prev) == nil {
+				evd = mergeEvidence(prev, evd, prefix)
+			}
+		}
+	}
+	b, _ := json.MarshalIndent(evd, "", " ")
 	if err := os.WriteFile(filepath.Join(dir, r.Property+".json"), b, 0o644); err != nil {
 		fmt.Fprintln(os.Stderr, "cannot write evidence:", err)
 	}
@@ -214,4 +224,80 @@ func (r *Run) Violations() []Violation {
 	r.mu.Lock()
 	defer r.mu.Unlock()
 	return append([]Violation{}, r.violations...)
+}
+
+// mergeEvidence folds the evidence of a second run (cur) into that of the first (prev): coverage keys of cur are
+// prefixed, states/transitions/traces are summed, exhaustive is the conjunction, assumptions are united.
+func mergeEvidence(prev, cur map[string]interface{}, prefix string) map[string]interface{} {
+	pc, _ := prev["coverage"].(map[string]interface{})
+	cc, _ := cur["coverage"].(map[string]interface{})
+	if pc == nil {
+		pc = map[string]interface{}{}
+	}
+	num := func(v interface{}) (float64, bool) {
+		switch x := v.(type) {
+		case float64:
+			return x, true
+		case int64:
+			return float64(x), true
+		case int:
+			return float64(x), true
+		}
+		return 0, false
+	}
+	for k, v := range cc {
+		switch k {
+		case "states", "transitions", "traces_validated_against_impl", "executions":
+			a, ok1 := num(pc[k])
+			b, ok2 := num(v)
+			if ok1 && ok2 {
+				pc[k] = int64(a + b)
+			} else if ok2 {
+				pc[k] = v
+			}
+			pc[prefix+"."+k] = v
+		case "exhaustive":
+			a, ok1 := pc[k].(bool)
+			b, _ := v.(bool)
+			if ok1 {
+				pc[k] = a && b
+			} else {
+				pc[k] = b
+			}
+			pc[prefix+"."+k] = v
+		case "samples":
+			if ps, ok := pc[k].([]interface{}); ok {
+				if cs, ok := v.([]interface{}); ok {
+					pc[k] = append(ps, cs...)
+					continue
+				}
+			}
+			pc[prefix+"."+k] = v
+		case "known_findings_reproduced":
+			ps, _ := pc[k].([]interface{})
+			if cs, ok := v.([]string); ok {
+				for _, c := range cs {
+					ps = append(ps, c)
+				}
+			}
+			pc[k] = ps
+		default:
+			pc[prefix+"."+k] = v
+		}
+	}
+	prev["coverage"] = pc
+	pa, _ := prev["assumptions"].([]interface{})
+	if ca, ok := cur["assumptions"].([]string); ok {
+		for _, a := range ca {
+			pa = append(pa, a)
+		}
+	}
+	prev["assumptions"] = pa
+	a, _ := num(prev["wall_s"])
+	b, _ := num(cur["wall_s"])
+	prev["wall_s"] = a + b
+	va, _ := num(prev["violations"])
+	vb, _ := num(cur["violations"])
+	prev["violations"] = int(va + vb)
+	return prev
 }
